@@ -130,6 +130,23 @@ def apply(world, op, tokinfo):
             if t not in tok.dictionary:
                 tokinfo["inVocab"] = False
         return tok.detokenise(tokens)
+    elif op == "token_roundtrip_plain":
+        # plain sequences (no bars, signature messages removed): the stream then has bar tokens before any signature token
+        ws = []
+        for s in world:
+            c = s.copy()
+            c.quantise_and_normalise()
+            c.overwrite_relative_messages([m for m in c.rel._messages if m.numerator is None])
+            ws.append(c)
+        tok = Tokeniser(num_tracks=len(ws))
+        tokens = tok.tokenise(ws)
+        for t in tokens:
+            for part in t.split("-"):
+                for f in part.split("_")[1:]:
+                    tokinfo["kinds"].add(literal_kind(f))
+            if t not in tok.dictionary:
+                tokinfo["inVocab"] = False
+        return tok.detokenise(tokens)
     elif op == "save_load":
         path = tmpfile()
         try:
